@@ -15,7 +15,8 @@ NoOverlapGuard == [Reader EXCEPT !["AxialRegionsOverlapOrInverted"] = "none"]
 Base == [n |-> 3, P |-> 650, D |-> 550, Dw |-> 90, Pw |-> 20000, clad |-> 55,
          ftf |-> <<3012, 3612>>, lowfi |-> 0, pitch |-> 3700, L |-> 60000, mesh |-> 1,
          outer |-> <<3612>>, regs |-> <<<<0, 15000>>, <<45000, 60000>>>>,
-         nbc |-> <<1>>, bcval |-> <<1>>, names |-> <<1, 1>>, pow |-> <<1, 1>>]
+         nbc |-> <<1>>, bcval |-> <<1>>, names |-> <<1, 1>>, pow |-> <<1, 1>>,
+         lines |-> <<<<1, 1, 1>>, <<2, 1, 6>>, <<3, 1, 12>>>>]
 Examples ==
   /\ Reasons(Base) = {}
   /\ Reasons([Base EXCEPT !.P = 900]) = {"PinsDoNotFit"}
@@ -33,4 +34,8 @@ Examples ==
   /\ Reasons([Base EXCEPT !.nbc = <<0>>]) = {"BoundaryCondition"}
   /\ Reasons([Base EXCEPT !.names = <<1, 0>>]) = {"UnknownMaterialOrCorrelation"}
   /\ Reasons([Base EXCEPT !.pow = <<0, 1>>]) = {"PowerProfile"}
+  /\ Reasons([Base EXCEPT !.lines = <<<<1, 1, 1>>, <<2, 1, 7>>>>]) = {"PositionOutsideRing"}
+  /\ Reasons([Base EXCEPT !.lines = <<<<1, 1, 2>>>>]) = {"PositionOutsideRing"}
+  /\ Reasons([Base EXCEPT !.lines = <<<<3, 12, 12>>, <<3, 13, 13>>>>]) = {"PositionOutsideRing"}
+  /\ Reasons([Base EXCEPT !.lines = <<<<2, 0, 3>>>>]) = {"PositionOutsideRing"}
 =============================================================================
